@@ -237,8 +237,9 @@ def op_image(w, ins):
         used.add(i)
         used.add(j)
         pairs.append((i, j))
-    if not pairs:
+    if not pairs and ins['pairs']:
         return 'skip'
+    # (an empty rename is the plain relational product: legal)
     keys = {i for i, _ in pairs}
     vals = {j for _, j in pairs}
     ren_k = {w.name_idx[order[i]]: w.name_idx[order[j]] for i, j in pairs}
@@ -321,6 +322,8 @@ def op_declare(w, ins):
     if after != want:
         w.fail('wrong_order', f'after declaring {nm!r}: order {after}, expected {want}', ['C14'])
     w.stats['declare_new' if not known else 'declare_again'] += 1
+    if not known:
+        ops.check_unique_table(w, m, ['C14'])
 
 
 def op_undeclare(w, ins):
@@ -352,6 +355,7 @@ def op_undeclare(w, ins):
     w.stats['undeclare'] += 1
     if want_rm:
         w.stats['undeclare_removed'] += 1
+    ops.check_unique_table(w, m, ['C14'])
 
 
 # ---------------------------------------------------------------------------
@@ -619,7 +623,7 @@ def gen_image(w, r, cfg):
     sn = w.snapshot(0)
     n = len(sn.order or [])
     pre = r.random() < 0.5
-    npairs = r.randint(1, 3)
+    npairs = r.choice([0, 1, 1, 1, 2, 2, 3])
     pairs = []
     for _ in range(npairs):
         if n >= 2 and (pre or r.random() < 0.6):
